@@ -267,6 +267,25 @@ def qkey(case, q):
 
 # ------------------------------------------------------------------ monitors (the properties, on the real trace)
 
+IDLE_SITES = ("processPending.select", "processCompleted.select")
+
+
+def measure_components(o):
+    """the components of the termination measure of coq/Sched/Term.v, read off the last observed state: what is
+    still pending when a run did not quiesce (helps to read a replay)"""
+    last = o["steps"][-1]["st"]
+    fin = o.get("final") or {}
+    rs = [r for r in last["rs"] if r]
+    busy = [(i, r[0]) for i, r in enumerate(last["rs"]) if r and not r[4] and r[0] > 0]
+    notidle = ["%s@%s%s" % (g["g"], g["at"], "" if g.get("enabled") else "(blocked)") for g in fin.get("parked", [])
+               if not (str(g["at"]).startswith(IDLE_SITES) and not g.get("enabled"))]
+    return ("measure components: A pending queue %d, sleeping retry/re-queue goroutines %s, unanswered %s; "
+            "B runners not shut down %d, unloaded events queued %d; E finished events queued %d, expired events queued %d; "
+            "R goroutines not at their idle point %s; runners with refCount > 0 %s"
+            % (last["q"][0], fin.get("sleepers", "?"), fin.get("unreplied") or [], len([r for r in rs if not r[4]]), last["q"][3],
+               last["q"][1], last["q"][2], notidle or "none", busy or "none"))
+
+
 def monitor(case, o):
     """returns {pid: [(sig, what)]} for C01, C02, C11"""
     v = {"C01": [], "C02": [], "C11": []}
@@ -361,14 +380,14 @@ def monitor(case, o):
                          "lock-order deadlock: " + "; ".join("%s at %s waits for %s held by %s" % (c["g"], c["at"], c["mutex"], c["waits_for_mutex_held_by"]) for c in cyc)
                          + "; unanswered requests: %s" % o["deadlock"].get("unreplied")))
     elif o.get("stuck"):
-        v["C02"].append(({"class": "unanswered"}, "requests %s were never answered although every load finished and every earlier request completed; parked: %s" % (o["stuck"]["unreplied"], o["stuck"]["parked"])))
+        v["C02"].append(({"class": "unanswered"}, "requests %s were never answered although every load finished and every earlier request completed; parked: %s; %s" % (o["stuck"]["unreplied"], o["stuck"]["parked"], measure_components(o))))
     elif not case.get("nodrain") and not o.get("truncated"):
         last = o["steps"][-1]["st"]
         if last["ld"]:
-            v["C02"].append(({"class": "not-drained", "kind": "loaded-nonempty"}, "after the drain the scheduler still reports loaded models %s" % last["ld"]))
+            v["C02"].append(({"class": "not-drained", "kind": "loaded-nonempty"}, "after the drain the scheduler still reports loaded models %s; %s" % (last["ld"], measure_components(o))))
         never = sorted(r for r in started if r not in closed)
         if never:
-            v["C02"].append(({"class": "not-drained", "kind": "runner-never-closed"}, "after the drain runner(s) %s were started but never shut down" % never))
+            v["C02"].append(({"class": "not-drained", "kind": "runner-never-closed"}, "after the drain runner(s) %s were started but never shut down; %s" % (never, measure_components(o))))
         for q in submitted:
             if replies.get(q, 0) == 0 and q not in cancelled_before_reply(o, q):
                 v["C02"].append(({"class": "unanswered"}, "request %d was never answered" % q))
@@ -756,7 +775,8 @@ MANIFEST = {
         "design_ref": "DESIGN.md section 5, C01; notes/C01.md",
     },
     "level_note": "Theorems hold for the repaired scheduler (fix commits 769ee6347, 27da3f16f, 840d0e442, 1035ca194, 6ba03e7c1; refuted for the code as found, Sched/Refute.v). "
-                  "Partial: no termination measure (the quiescent states are characterised, C02_quiescent_complete, but reaching quiescence is only monitored); "
+                  "C02 liveness: the internal steps terminate in a quiescent state modulo Tick (C02_internal_terminates, C02_reaches_quiescence) and that state is complete and drained "
+                  "if every holder has finished and time has passed (C02_answered_exactly_once, C02_drains); termination across Ticks (C02_drains_full) is stated, not proved, and monitored by the drain. "
                   "C11 memory fit: the model's placement is an oracle; C11_fit_before_start proves a server is started only after the oracle answered 'fits' or with "
                   "nothing loaded, the oracle's meaning (real PredictServerFit arithmetic) is monitored with an independent fit computation, not proved. "
                   
